@@ -382,6 +382,7 @@ func c02Derivations(w *W) {
 		}
 	})
 }
+
 // mutants enumerates every single-symbol deletion, insertion (each Σcore
 // symbol at each position), duplication and adjacent swap of the base
 // sentences (quick: the default-filled templates and top-level lists;
